@@ -3,6 +3,7 @@
 #include <string.h>
 #include "core.h"
 #include "libMultiMarkdown.h"
+#include "d_string.h"
 #include "mmd.h"
 #include "token.h"
 
@@ -21,13 +22,79 @@ static uint64_t walk(token * t, long * n, int depth) {
 	return h;
 }
 
+int scen_tree_dump(cmd_t * c);
 int scen_tree(cmd_t * c) {
 	const char * n = c->name; arg_t * a = c->argv;
+	if (scen_tree_dump(c)) return 1;
 	if (!strcmp(n, "e_inspect")) {
 		mmd_engine * e = harness_engine((int)arg_long(&a[0])); if (!e) return 0;
 		long cnt = 0; uint64_t h = walk(mmd_engine_root(e), &cnt, 0);
 		char b[32]; snprintf(b, sizeof b, "\"%016llx\"", (unsigned long long)h);
 		ev_begin("inspect"); ev_int("eid", arg_long(&a[0])); ev_int("tokens", cnt); ev_raw("sum", b); ev_end();
+		return 1;
+	}
+	return 0;
+}
+
+/* ---- tree dump for TreeInv (C15): every pointer field as a node id (preorder), 0 = NULL, -1 = points outside the tree ---- */
+typedef struct { token ** keys; int * vals; size_t cap, n; } pmap;
+static void pm_init(pmap * m, size_t cap) { m->cap = cap; m->n = 0; m->keys = calloc(cap, sizeof(token *)); m->vals = calloc(cap, sizeof(int)); }
+static size_t pm_slot(pmap * m, token * k) { size_t h = ((size_t)k >> 4) * 11400714819323198485ULL; h %= m->cap; while (m->keys[h] && m->keys[h] != k) h = (h + 1) % m->cap; return h; }
+static int pm_get(pmap * m, token * k) { if (!k) return 0; size_t s = pm_slot(m, k); return m->keys[s] ? m->vals[s] : -1; }
+static void pm_grow(pmap * m) {
+	pmap b; pm_init(&b, m->cap * 2);
+	for (size_t i = 0; i < m->cap; i++) if (m->keys[i]) { size_t s = pm_slot(&b, m->keys[i]); b.keys[s] = m->keys[i]; b.vals[s] = m->vals[i]; b.n++; }
+	free(m->keys); free(m->vals); *m = b;
+}
+static int pm_put(pmap * m, token * k, int v) { if (m->n * 2 >= m->cap) pm_grow(m); size_t s = pm_slot(m, k); if (m->keys[s]) return 0; m->keys[s] = k; m->vals[s] = v; m->n++; return 1; }
+
+static token ** order = NULL; static size_t norder = 0, caporder = 0;
+static int shared = 0;   /* a node reached twice: not a tree (cycle or sharing) */
+static void assign(pmap * m, token * t, int depth) {
+	/* iterative over siblings, recursive over children (depth is bounded by the parser's own recursion guards) */
+	while (t) {
+		if (!pm_put(m, t, (int)norder + 1)) { shared = 1; return; }
+		if (norder == caporder) { caporder = caporder ? caporder * 2 : 1024; order = realloc(order, caporder * sizeof(token *)); }
+		order[norder++] = t;
+		if (norder > 3000000) { shared = 1; return; }
+		if (t->child && depth < 20000) assign(m, t->child, depth + 1);
+		t = t->next;
+	}
+}
+
+static void dump_tree(const char * when, token * root, size_t srclen, long base, long span) {
+	pmap m; pm_init(&m, 4096); norder = 0; shared = 0;
+	if (root) { pm_put(&m, root, 1); order = realloc(order, (caporder = caporder ? caporder : 1024) * sizeof(token *)); order[norder++] = root; if (root->child) assign(&m, root->child, 1); }
+	ev_begin("tree"); ev_str("when", when); ev_int("srclen", (long long)srclen); ev_int("base", base); ev_int("span", span);
+	ev_bool("shared", shared); ev_int("n", (long long)norder);
+	/* nodes: [type,start,len,next,prev,child,mate] ; only emitted in full when asked (TLC evaluates TreeOK on them) */
+	size_t need = norder * 80 + 16; char * b = malloc(need); size_t o = 0;
+	b[o++] = '[';
+	for (size_t i = 0; i < norder; i++) {
+		token * t = order[i];
+		o += (size_t)snprintf(b + o, need - o, "%s[%u,%zu,%zu,%d,%d,%d,%d]", i ? "," : "", t->type, t->start, t->len,
+		                      (i == 0) ? 0 : pm_get(&m, t->next), (i == 0) ? 0 : pm_get(&m, t->prev), pm_get(&m, t->child), pm_get(&m, t->mate));
+	}
+	b[o++] = ']'; b[o] = 0;
+	ev_raw("nodes", b);
+	ev_end();
+	free(b); free(m.keys); free(m.vals);
+}
+
+int scen_tree_dump(cmd_t * c) {
+	const char * n = c->name; arg_t * a = c->argv;
+	if (!strcmp(n, "e_tree")) {          /* e_tree <eid> <when> */
+		mmd_engine * e = harness_engine((int)arg_long(&a[0])); if (!e) return 0;
+		DString * d = harness_engine_dstr((int)arg_long(&a[0]));
+		dump_tree(a[1].s, mmd_engine_root(e), d->currentStringLength, 0, (long)d->currentStringLength);
+		return 1;
+	}
+	if (!strcmp(n, "e_subtree")) {       /* e_subtree <eid> <start> <len> : mmd_engine_parse_substring */
+		mmd_engine * e = harness_engine((int)arg_long(&a[0])); if (!e) return 0;
+		DString * d = harness_engine_dstr((int)arg_long(&a[0]));
+		size_t st = arg_size(&a[1]), ln = arg_size(&a[2]);
+		token * t = mmd_engine_parse_substring(e, st, ln);
+		dump_tree("substring", t, d->currentStringLength, (long)st, (long)ln);
 		return 1;
 	}
 	return 0;
